@@ -25,6 +25,8 @@ import struct
 from lib import vfmt
 
 PROPERTY = 'C13'
+import isolation as _iso
+ISOLATION = [(n, getattr(_iso, n)) for n in ['mux_serializer']]      # instance-isolation obligation (harness/isolation.py)
 SOURCE_IMPORTS = ['ScalesModel.Model.MuxCodec']
 SOURCE_CONSTANTS = {
     'Scales.MuxCodec.tDispatch': ('from scales.thriftmux.protocol import MessageType as M', 'M.Tdispatch'),
